@@ -267,9 +267,10 @@ def nativeSeq (isDeque : Bool) (op : NOp) (xs : List PyVal) : Except NErr (List 
   | .remove v => match removeFirst xs v with
     | none => .error .valueErr
     | some ys => .ok ys
-  | .pop k _ =>
+  | .pop k dflt =>
     if isDeque then
       (if xs.isEmpty then .error .indexErr else .ok xs.dropLast)
+    else if dflt.isSome then .error .typeErr     -- `list.pop` takes at most one argument
     else match k with
       | none => if xs.isEmpty then .error .indexErr else .ok xs.dropLast
       | some kv => match intOf kv with
